@@ -168,7 +168,27 @@ func (w *sworld) stepLockStress(caseID, rounds, n int) (J, J, bool) {
 				lost++
 			}
 		}
-		obs["overlaps"], obs["refused"], obs["lostUpdates"] = overlaps, refused, lost
+		// a TryLock that reports failure must hold nothing: a caller whose context is already over (go-lock lets it take a
+		// FREE mutex) either gets the lock — and releases it — or is refused and leaves the name free for the next caller
+		var leaks int64
+		for r := 0; r < 20; r++ {
+			name := fmt.Sprintf("LS:%d:%d:c%d", os.Getpid(), caseID, r)
+			cctx, cancel := context.WithCancel(context.Background())
+			cancel()
+			l1 := w.kit.Mgrs.GetLock(ocontext.NewOrdaContext(cctx, constants.TagTest), name)
+			if l1.TryLock() {
+				l1.Unlock()
+			}
+			lctx, lcancel := context.WithTimeout(context.Background(), 300*time.Millisecond)
+			l2 := w.kit.Mgrs.GetLock(ocontext.NewOrdaContext(lctx, constants.TagTest), name)
+			if l2.TryLock() {
+				l2.Unlock()
+			} else {
+				leaks++
+			}
+			lcancel()
+		}
+		obs["overlaps"], obs["refused"], obs["lostUpdates"], obs["leaks"] = overlaps, refused, lost, leaks
 	})
 	return J{"k": "lockstress", "rounds": rounds, "goroutines": n}, obs, hung
 }
